@@ -189,8 +189,10 @@ def run_model(lines, jobs=None, timeout=1800):
 def _run_chunks(cmd, lines, jobs, timeout, preexec):
     if not lines:
         return []
-    jobs = jobs or NCPU
-    jobs = max(1, min(jobs, len(lines) // 50 + 1))
+    if jobs:
+        jobs = max(1, min(jobs, len(lines)))
+    else:
+        jobs = max(1, min(NCPU, len(lines) // 50 + 1))
     n = len(lines)
     chunks = [lines[i * n // jobs:(i + 1) * n // jobs] for i in range(jobs)]
     procs = []
